@@ -268,6 +268,102 @@ def T_ite(c, a, b):
     return ("ite", c, a, b)
 
 
+def vnorm(t):
+    """Normal form of 1-D vector compositions, applied to both sides of a term identity: nested hstack / concatenate
+    flattened; `x[:k]` is `x[0:k]`; inside a concatenation a one-element slice `x[-1:]` / `x[k:k+1]` is the element
+    `x[-1]` / `x[k]`; a stack of scalars is the concatenation of those scalars."""
+    if not isinstance(t, tuple) or not t:
+        return t
+    if t[0] == "poly":
+        m = {}
+        for mono, _c in t[1]:
+            for a, _p in mono:
+                na = vnorm(a)
+                if na != a:
+                    m[a] = na
+        return subst(t, m) if m else t
+    t = tuple(vnorm(x) if isinstance(x, tuple) else x for x in t)
+    if t[0] == "app" and t[1] == "slice" and len(t[2]) == 4 and t[2][3] == NONE and t[2][1] == NONE:
+        t = ("app", "slice", (t[2][0], ZERO, t[2][2], NONE))
+    if t[0] == "app" and t[1] == "stack" and all(isinstance(x, tuple) and x and x[0] != "lam" and not (x[0] == "app" and x[1] in ("slice", "hstack", "stack", "array"))
+                                                 for x in t[2]):
+        t = ("app", "hstack", t[2])
+    if t[0] == "app" and t[1] == "hstack":
+        items = []
+        for x in t[2]:
+            if isinstance(x, tuple) and x and x[0] == "app" and x[1] == "hstack":
+                items.extend(x[2])
+            else:
+                items.append(x)
+        out = []
+        for x in items:
+            if isinstance(x, tuple) and x and x[0] == "app" and x[1] == "slice" and len(x[2]) == 4 and x[2][3] == NONE:
+                base, lo, hi = x[2][0], x[2][1], x[2][2]
+                if lo == K(-1) and hi == NONE:
+                    x = ("elem", base, (K(-1),))
+                elif hi != NONE and lo != NONE and T_sub(hi, lo) == ONE:
+                    x = ("elem", base, (lo,))
+            out.append(x)
+        t = ("app", "hstack", tuple(out))
+    return t
+
+
+def case_table(t, max_atoms: int = 6):
+    """A nested where / ite over boolean conditions as a decision table: {assignment of the atomic conditions: leaf}.
+    None if the term is not of that shape or has too many atoms."""
+    atoms: list = []
+
+    def cond_atoms(c):
+        if isinstance(c, tuple) and c and c[0] == "app" and c[1] in ("and", "or", "not"):
+            for x in c[2]:
+                cond_atoms(x)
+        elif c not in atoms:
+            atoms.append(c)
+
+    def collect(x):
+        if isinstance(x, tuple) and x and x[0] == "app" and x[1] == "where" and len(x[2]) == 3:
+            cond_atoms(x[2][0]); collect(x[2][1]); collect(x[2][2])
+        elif isinstance(x, tuple) and x and x[0] == "ite":
+            cond_atoms(x[1]); collect(x[2]); collect(x[3])
+
+    collect(t)
+    if not atoms or len(atoms) > max_atoms:
+        return None, None
+    atoms_sorted = sorted(atoms, key=repr)
+
+    def ev_c(c, env):
+        if isinstance(c, tuple) and c and c[0] == "app" and c[1] == "and":
+            return all(ev_c(x, env) for x in c[2])
+        if isinstance(c, tuple) and c and c[0] == "app" and c[1] == "or":
+            return any(ev_c(x, env) for x in c[2])
+        if isinstance(c, tuple) and c and c[0] == "app" and c[1] == "not":
+            return not ev_c(c[2][0], env)
+        return env[c]
+
+    def ev_t(x, env):
+        if isinstance(x, tuple) and x and x[0] == "app" and x[1] == "where" and len(x[2]) == 3:
+            return ev_t(x[2][1], env) if ev_c(x[2][0], env) else ev_t(x[2][2], env)
+        if isinstance(x, tuple) and x and x[0] == "ite":
+            return ev_t(x[2], env) if ev_c(x[1], env) else ev_t(x[3], env)
+        return x
+
+    import itertools as _it
+    table = {}
+    for bits in _it.product((False, True), repeat=len(atoms_sorted)):
+        env = dict(zip(atoms_sorted, bits))
+        table[bits] = ev_t(t, env)
+    return tuple(atoms_sorted), table
+
+
+def case_equal(a, b) -> bool:
+    """Two nested conditionals select the same leaf under every truth assignment of their (shared) atomic conditions."""
+    aa, ta = case_table(a)
+    ab, tb = case_table(b)
+    if aa is None or ab is None or set(aa) != set(ab):
+        return False
+    return aa == ab and ta == tb
+
+
 def lift_ite(t, cond, budget: int = 64):
     """Pull the conditional on `cond` to the top: f(.., ite(cond, a, b), ..) -> ite(cond, f(.., a, ..), f(.., b, ..)), so
     that `x = ite(c, a, b); return f(x)` and `if c: return f(a) ... return f(b)` are the same term.  Binders are not crossed."""
